@@ -162,9 +162,10 @@ theorem childrenParts_spaces (n : Nat) (hd : (digits n).length ≤ maxStrDigits)
     natRepr_isAscii, Bool.not_true, Bool.false_eq_true, if_false, pyInt_natRepr n hd, Int.toNat_natCast]
   simp [TextOut.append]
 
-theorem childrenParts_span (text : Str) (rest : List Xml) (r : Str) (h : childrenParts rest = some (some r)) :
-    childrenParts (.node "text:span" [] (some text) [] none :: rest) = some (some (text ++ r)) := by
-  rw [childrenParts, h, textParts_node, childrenParts_nil]
+theorem childrenParts_span (text : Option Str) (children : List Xml) (inner : Str)
+    (h : childrenParts children = some (some inner)) :
+    childrenParts [.node "text:span" [] text children none] = some (some (text.getD [] ++ inner)) := by
+  rw [childrenParts, childrenParts_nil, textParts_node, h]
   simp [TextOut.append]
 
 theorem takeWhile_blank (l : Str) : l.takeWhile (· == ' ') = List.replicate (l.takeWhile (· == ' ')).length ' ' ∧
@@ -184,8 +185,8 @@ theorem takeWhile_blank (l : Str) : l.takeWhile (· == ' ') = List.replicate (l.
 
 /-- the white-space mark-up of one paragraph puts the text back together -/
 theorem encodeInline_go (fuel : Nat) : ∀ (text acc : Str), text.length < fuel → text.length < 10 ^ maxStrDigits →
-    ∃ r, childrenParts (encodeInline.go fuel text acc).2 = some (some r) ∧
-      ((encodeInline.go fuel text acc).1.getD []) ++ r = acc.reverse ++ text := by
+    ∃ r, childrenParts (encodeInlinePlain.go fuel text acc).2 = some (some r) ∧
+      ((encodeInlinePlain.go fuel text acc).1.getD []) ++ r = acc.reverse ++ text := by
   induction fuel with
   | zero => intro text acc h; omega
   | succ fuel ih =>
@@ -193,23 +194,23 @@ theorem encodeInline_go (fuel : Nat) : ∀ (text acc : Str), text.length < fuel 
     cases text with
     | nil =>
       refine ⟨[], ?_, ?_⟩
-      · simp [encodeInline.go, childrenParts_nil]
-      · simp [encodeInline.go, optText_getD]
+      · simp [encodeInlinePlain.go, childrenParts_nil]
+      · simp [encodeInlinePlain.go, optText_getD]
     | cons c rest =>
       have hrl : rest.length < fuel := by simp only [List.length_cons] at hlen; omega
       have hrs : rest.length < 10 ^ maxStrDigits := by simp only [List.length_cons] at hsmall; omega
       by_cases ht : c = '\t'
       · subst ht
         obtain ⟨r, hr1, hr2⟩ := ih rest [] hrl hrs
-        refine ⟨'\t' :: (((encodeInline.go fuel rest []).1.getD []) ++ r), ?_, ?_⟩
-        · simp only [encodeInline.go]; exact childrenParts_tab _ _ _ hr1
-        · simp only [encodeInline.go, optText_getD, hr2]; simp
+        refine ⟨'\t' :: (((encodeInlinePlain.go fuel rest []).1.getD []) ++ r), ?_, ?_⟩
+        · simp only [encodeInlinePlain.go]; exact childrenParts_tab _ _ _ hr1
+        · simp only [encodeInlinePlain.go, optText_getD, hr2]; simp
       · by_cases hn : c = '\n'
         · subst hn
           obtain ⟨r, hr1, hr2⟩ := ih rest [] hrl hrs
-          refine ⟨'\n' :: (((encodeInline.go fuel rest []).1.getD []) ++ r), ?_, ?_⟩
-          · simp only [encodeInline.go]; exact childrenParts_break _ _ _ hr1
-          · simp only [encodeInline.go, optText_getD, hr2]; simp
+          refine ⟨'\n' :: (((encodeInlinePlain.go fuel rest []).1.getD []) ++ r), ?_, ?_⟩
+          · simp only [encodeInlinePlain.go]; exact childrenParts_break _ _ _ hr1
+          · simp only [encodeInlinePlain.go, optText_getD, hr2]; simp
         · by_cases hb : c = ' ' ∧ ∃ rest', rest = ' ' :: rest'
           · obtain ⟨rfl, rest', rfl⟩ := hb
             have hdl : (rest'.drop (rest'.takeWhile (· == ' ')).length).length < fuel := by
@@ -223,16 +224,16 @@ theorem encodeInline_go (fuel : Nat) : ∀ (text acc : Str), text.length < fuel 
               simp only [List.length_cons] at hsmall
               omega
             refine ⟨List.replicate (1 + (rest'.takeWhile (· == ' ')).length) ' ' ++
-              (((encodeInline.go fuel (rest'.drop (rest'.takeWhile (· == ' ')).length) []).1.getD []) ++ r), ?_, ?_⟩
-            · simp only [encodeInline.go]; exact childrenParts_spaces _ hdig _ _ _ hr1
-            · simp only [encodeInline.go, Option.getD_some, hr2, List.reverse_cons, List.reverse_nil, List.nil_append]
+              (((encodeInlinePlain.go fuel (rest'.drop (rest'.takeWhile (· == ' ')).length) []).1.getD []) ++ r), ?_, ?_⟩
+            · simp only [encodeInlinePlain.go]; exact childrenParts_spaces _ hdig _ _ _ hr1
+            · simp only [encodeInlinePlain.go, Option.getD_some, hr2, List.reverse_cons, List.reverse_nil, List.nil_append]
               conv => rhs; rw [hsplit]
               rw [show 1 + (rest'.takeWhile (· == ' ')).length = (rest'.takeWhile (· == ' ')).length + 1 by omega, List.replicate_succ]
               simp [List.append_assoc]
           · -- an ordinary character (a single blank included)
             obtain ⟨r, hr1, hr2⟩ := ih rest (c :: acc) hrl hrs
-            have hgo : encodeInline.go (fuel + 1) (c :: rest) acc = encodeInline.go fuel rest (c :: acc) := by
-              rw [encodeInline.go.eq_def]
+            have hgo : encodeInlinePlain.go (fuel + 1) (c :: rest) acc = encodeInlinePlain.go fuel rest (c :: acc) := by
+              rw [encodeInlinePlain.go.eq_def]
               split
               · omega
               · rename_i heq; cases heq
@@ -250,23 +251,30 @@ theorem encodeInline_go (fuel : Nat) : ∀ (text acc : Str), text.length < fuel 
             refine ⟨r, by rw [hgo]; exact hr1, ?_⟩
             rw [hgo, hr2]; simp
 
+/-- the paragraph's own text and white-space mark-up give the paragraph back -/
+theorem encodeInlinePlain_parts (w : Bool) (p : Str) (hp : p.length < 10 ^ maxStrDigits) :
+    ∃ r, childrenParts (encodeInlinePlain w p).2 = some (some r) ∧ ((encodeInlinePlain w p).1.getD []) ++ r = p := by
+  unfold encodeInlinePlain
+  by_cases hw : w = true
+  · simp only [hw, if_true]
+    obtain ⟨r, hr1, hr2⟩ := encodeInline_go (p.length + 1) p [] (by omega) hp
+    exact ⟨r, hr1, by simpa using hr2⟩
+  · simp only [hw, Bool.false_eq_true, if_false]
+    exact ⟨[], childrenParts_nil, by simp [optText_getD]⟩
+
 /-- every way of marking up a paragraph gives the paragraph back -/
 theorem textParts_encodeInline (f : OdsFeatures) (p : Str) (hp : p.length < 10 ^ maxStrDigits) :
     textParts (.node "text:p" [] (encodeInline f p).1 (encodeInline f p).2 none) = some (some p) := by
   rw [textParts_node]
+  obtain ⟨r, hr1, hr2⟩ := encodeInlinePlain_parts f.whitespace p hp
   unfold encodeInline
   by_cases hs : f.spans = true
   · simp only [hs, if_true, Option.getD_none]
-    rw [childrenParts_span p [] [] childrenParts_nil]
+    rw [childrenParts_span _ _ r hr1, hr2]
     simp [TextOut.append]
   · simp only [hs, Bool.false_eq_true, if_false]
-    by_cases hw : f.whitespace = true
-    · simp only [hw, if_true]
-      obtain ⟨r, hr1, hr2⟩ := encodeInline_go (p.length + 1) p [] (by omega) hp
-      rw [hr1]
-      simp only [TextOut.append, hr2, List.reverse_nil, List.nil_append]
-    · simp only [hw, Bool.false_eq_true, if_false, childrenParts_nil, optText_getD]
-      simp [TextOut.append]
+    rw [hr1]
+    simp only [TextOut.append, hr2]
 
 /-- lines joined by line feeds -/
 def joinLines : List Str → Str
